@@ -38,6 +38,10 @@ func (s *State) get(name, sort string) *Term {
 		return t
 	}
 	heapSorts[name] = sort
+	if strings.HasPrefix(name, "ghost|lockheld.") {
+		// the verified thread enters holding no lock
+		return BV(0, 64)
+	}
 	if lockSlotNames[name] {
 		// the verified thread enters a function holding no lock unless the
 		// contract says `requires held(...)`
